@@ -501,7 +501,11 @@ class Session:
                 self.extract_server_buf()
 
                 for record in self.server_tls_records:
-                    self.handle_tls_record(record, True)
+                    try:
+                        self.handle_tls_record(record, True)
+                    except Exception as e:
+                        # a damaged or unexpected record must not abort the run
+                        logging.warning(f"Could not handle TLS record: {e}")
 
                 self.server_tls_records.clear()
             else:
@@ -509,7 +513,11 @@ class Session:
                 self.extract_client_buf()
 
                 for record in self.client_tls_records:
-                    self.handle_tls_record(record, False)
+                    try:
+                        self.handle_tls_record(record, False)
+                    except Exception as e:
+                        # a damaged or unexpected record must not abort the run
+                        logging.warning(f"Could not handle TLS record: {e}")
 
                 self.client_tls_records.clear()
 
